@@ -481,6 +481,11 @@ def scalar_op_line(rng, c, inplace=None, r='t1'):
         else:
             k = dy(rng, -12, 12)
         kt = rng.choice(['flt', 'flt', 'int']) if '^' not in k else 'flt'
+        if op in ('add', 'sub', 'mul', 'div') and rng.random() < (0.5 if c.dtype == 'f4' else 0.15):
+            # a numpy float64 scalar that float32 cannot hold, on any float map: numpy computes in float64 and casts
+            # the result (the exact model declines; the harness checks the rounding itself)
+            k = rng.choice(['53687091^29', '-28633115^26', '11184811^25', '3602879701896397^55'])
+            return "sop %s op=%s k=%s ktype=flt npk=f8%s" % (c.name, op, k, tail)
         return "sop %s op=%s k=%s ktype=%s%s" % (c.name, op, k, kt, tail)
     # illegal on this kind (must be rejected)
     return "sop %s op=add k=1 ktype=int%s" % (c.name, tail)
